@@ -685,7 +685,7 @@ Section Main.
     m_gts m' = m_gts m /\ pool_types_ok (m_txs m') = true.
   Proof.
     intros H Hp. unfold bundle in H.
-    destruct (negb _); [discriminate|].
+    destruct (negb _); [injection H as <- <-; auto|].
     destruct (can_bundle _ _ _ n m ts (is_some gt)); [|injection H as <- <-; auto].
     destruct stake as [s|]; [|injection H as <- <-; auto].
     destruct (add_transaction_if_validates _ _ dbg n m s) as [m1| |s1] eqn:Ei; cbn [bind] in H; try discriminate.
@@ -819,9 +819,11 @@ Section Main.
   Qed.
 
   (* ---------------------------------------------------------------- two more ways of not producing *)
-  Theorem bundle_ts_panics : forall dbg (n : nodeM) creator m ts gt stake order p,
+  (* timestamp not after the tip's: bundle_block declines (`return None`), the pool is untouched;
+     in particular no panic on timestamp order (fix f62222f) *)
+  Theorem bundle_ts_declines : forall dbg (n : nodeM) creator m ts gt stake order p,
     v_tip (view (n_chain _ n)) = Some p -> ts <= par_ts p ->
-    bundleM dbg n creator m ts gt stake order = Panic SITE_BUNDLE_TS.
+    bundleM dbg n creator m ts gt stake order = Ok (GateClosed, m).
   Proof.
     intros dbg n creator m ts gt stake order p Htip Hle. unfold bundle. rewrite Htip.
     assert (E : (par_ts p <? ts) = false) by (apply N.ltb_ge; exact Hle). now rewrite E.
